@@ -464,10 +464,22 @@ func exportsOfThisPackageOnly(r *core.Run) {
 	}
 }
 
-// appendsTypeRef: the statement of fn that appends a *TypeRef parameter to a slice field of its receiver.
+// appendsTypeRef: the statement of fn that appends its *TypeRef parameter (as it is, or wrapped in a
+// literal) to a slice field of its receiver.
 func appendsTypeRef(pk *packages.Package, info *types.Info, fn *types.Func) ast.Node {
 	fd := core.DeclOf(pk, fn)
-	if fd == nil || fd.Body == nil || fd.Recv == nil {
+	if fd == nil || fd.Body == nil || fd.Recv == nil || fd.Type.Params == nil {
+		return nil
+	}
+	params := map[types.Object]bool{}
+	for _, p := range fd.Type.Params.List {
+		if strings.HasSuffix(core.TypeStr(info.TypeOf(p.Type)), "j5convert.TypeRef") {
+			for _, nm := range p.Names {
+				params[info.ObjectOf(nm)] = true
+			}
+		}
+	}
+	if len(params) == 0 {
 		return nil
 	}
 	var out ast.Node
@@ -477,13 +489,19 @@ func appendsTypeRef(pk *packages.Package, info *types.Info, fn *types.Func) ast.
 			return true
 		}
 		c, ok := core.Unparen(as.Rhs[0]).(*ast.CallExpr)
-		if !ok || core.CalleeName(info, c) != "builtin.append" {
+		if !ok || core.CalleeName(info, c) != "builtin.append" || len(c.Args) < 2 {
 			return true
 		}
-		if sl, ok := info.TypeOf(as.Lhs[0]).Underlying().(*types.Slice); ok && strings.HasSuffix(core.TypeStr(sl.Elem()), "j5convert.TypeRef") {
-			if _, isSel := core.Unparen(as.Lhs[0]).(*ast.SelectorExpr); isSel {
-				out = as
-			}
+		if _, isSel := core.Unparen(as.Lhs[0]).(*ast.SelectorExpr); !isSel {
+			return true
+		}
+		for _, a := range c.Args[1:] {
+			ast.Inspect(a, func(m ast.Node) bool {
+				if id, ok := m.(*ast.Ident); ok && params[info.ObjectOf(id)] {
+					out = as
+				}
+				return true
+			})
 		}
 		return true
 	})
